@@ -234,3 +234,46 @@ func VerifC20Uncollected() {
 	}
 	verifapi.Reach("c20.uncollected")
 }
+
+// VerifC20BusyStop: Stop is called while the loop is busy inside a keep-alive the pool has not answered yet, and
+// another Start arrives before Stop returns. When the pool finally answers and everything has settled, there
+// is at most one loop, and the agent refuses a further Start exactly if a loop of its own is still running
+// (a tick gets a keep-alive) - never a running loop next to an agent that believes it is stopped.
+func VerifC20BusyStop() {
+	node := &verifNode{ua: ethnode.UserAgent{Kind: ethnode.Geth}}
+	script := &verifPoolScript{}
+	a := &Agent{EthNode: node}
+	if err := a.Start(script); err != nil {
+		verifapi.Unreachable("c20.busystop.start")
+		return
+	}
+	verifapi.Quiesce()
+	script.gate = make(chan struct{})
+	verifapi.FireTicker(verifapi.Tickers() - 1)
+	verifapi.Quiesce() // the loop is now inside Update, waiting for the pool
+	go a.Stop()
+	verifapi.Quiesce()
+	second := make(chan error, 1)
+	go func() { second <- a.Start(script) }()
+	verifapi.Quiesce()
+	close(script.gate) // the pool answers
+	verifapi.Quiesce()
+	verifapi.Reach("c20.busystop")
+	live := 0
+	for i := 0; i < verifapi.Tickers(); i++ {
+		before := script.updates
+		verifapi.FireTicker(i)
+		verifapi.Quiesce()
+		if script.updates > before {
+			live++
+		}
+	}
+	verifapi.Assert(live <= 1, "c20.exactly-one-loop")
+	err := a.Start(script)
+	verifapi.Quiesce()
+	if live == 1 {
+		verifapi.Assert(err == ErrAlreadyStarted, "c20.busystop.running-loop-means-start-refused")
+	} else {
+		verifapi.Assert(err == nil, "c20.restart-after-stop")
+	}
+}
